@@ -201,7 +201,7 @@ func init() {
 			{{K: "arr", Addr: 1, TI: 1}, {K: "map", Addr: 2, TI: 2}},
 		},
 		MaxBulk: 80, Keys: []int{12, 40, 200},
-		ValW:    valAll, MaxDepth: 2, MaxElems: 4, AcqW: [3]int{8, 1, 1},
+		ValW: valAll, MaxDepth: 2, MaxElems: 4, AcqW: [3]int{8, 1, 1},
 		CollLimits: []uint32{0, 1, 2, 255},
 	})
 	g.DigRootsPct = 50
